@@ -77,7 +77,7 @@ impl Prop for C08 {
 
     fn plan(&self, tier: Tier) -> Plan {
         let mut p = Plan::new(match tier {
-            Tier::Quick => 150,
+            Tier::Quick => 250,
             Tier::Thorough => 2500,
         });
         p.workers = 3;
